@@ -9,7 +9,7 @@ that hold for every `tol` say so, statements that need exact comparisons are sta
 with a proved counterexample for `tol > 0`.  Vocabulary (`Sol`, `Canon`, `Feasible`, `ObjInv`,
 `basicSolution`): `Rooc/TabSem.lean`.
 -/
-import Rooc.Proofs.Unbounded
+import Rooc.Proofs.StartMain
 import Mathlib.Algebra.Order.Field.Rat
 import Mathlib.Tactic.NormNum
 namespace Rooc.Props.C14
@@ -103,6 +103,21 @@ theorem unbounded_genuine {T : Tab K} {m n : Nat} (hC : Canon T m n) (hF : Feasi
     ∃ x : List K, x.length = n ∧ Sol T x ∧ (∀ j, 0 ≤ nth x j) ∧ dot c0 x < M :=
   Unbounded.unbounded_genuine hC hF hO hs M
 
+/-- **into_tableau_canonical_partial** (direct start).  When `into_tableau` finds an independent column for
+every row (the branch that does not need phase 1), the tableau it returns is in canonical form, has the
+solution set of the standard form `A x = b`, represents its objective, and is feasible when `b ≥ 0` (which
+`to_standard_form` guarantees, C13 `std_shape`).  PARTIAL: needs the decidable hypothesis `NoSubTol` — no
+entry of `A` with `0 < |a| < tol` — and `tol > 0`; without it a "basic" column may keep a sub-tolerance entry
+in another row (known finding `C14-absolute-tolerance-on-unscaled-data`).  The two-phase start is not covered. -/
+theorem into_tableau_canonical_partial {tol : K} (ht : 0 < tol) (sm : StdModel K) (stallExtra phase1Limit : Nat)
+    (hrows : ∀ r ∈ sm.rows, r.coeffs.length = sm.vars.length) (hobj : sm.objective.length = sm.vars.length)
+    (hN : Start.NoSubTol tol (sm.rows.map (·.coeffs)))
+    (hdir : sm.rows.length ≤ (independentColumns tol sm.vars.length (sm.rows.map (·.coeffs))).length ∧
+      (selectPerRow sm.rows.length (independentColumns tol sm.vars.length (sm.rows.map (·.coeffs)))).length = sm.rows.length) :
+    ∃ T, intoTableau tol stallExtra phase1Limit sm = .ok T ∧ Canon T sm.rows.length sm.vars.length ∧
+      ObjInv T sm.objective ∧ (∀ x, Sol T x ↔ Sol (Start.stdTab sm) x) ∧ ((∀ r ∈ sm.rows, 0 ≤ r.rhs) → Feasible T) :=
+  Start.intoTableau_direct ht sm stallExtra phase1Limit hrows hobj hN hdir
+
 /-- **terminates_within_limit_partial.**  The loop performs at most `limit` pivots (it is fuel-bounded by
 construction).  That Bland's rule reaches `Finished`/`Unbounded` BEFORE the limit (no cycling) is the
 classical termination theorem and is NOT proved here (planned: `bland_terminates`). -/
@@ -185,6 +200,28 @@ theorem finished_optimal_tol_counterexample :
     subst this; simp [T3, row, nth, dot]
   · simp [basicSolution, variablesValues, T3, dot, nth, List.zipIdx]
     norm_num
+
+/-- `min −x₀` with `x₀ + x₁ = 2`: the slack-like column `x₁`… and `x₀` are both independent. -/
+def sm0 : StdModel ℚ := { vars := ["x0", "x1"], objective := [-1, 0], offset := 0, flip := false, rows := [{ coeffs := [1, 1], rhs := 2 }] }
+
+theorem sm0_independent : independentColumns (1/100000 : ℚ) 2 [[1, 1]] = [⟨0, 0, 1⟩, ⟨0, 1, 1⟩] := by
+  have h1 : |(1:ℚ)| = 1 := abs_one
+  have h2 : (100000:ℚ)⁻¹ ≤ 1 := by norm_num
+  simp [independentColumns, List.range, List.range.loop, List.zipIdx, nth, Tol.fne, Tol.feq, Tol.fgt, h1, h2]
+
+/-- the hypotheses of `into_tableau_canonical_partial` are satisfiable. -/
+example : Start.NoSubTol (1/100000 : ℚ) (sm0.rows.map (·.coeffs)) ∧
+    sm0.rows.length ≤ (independentColumns (1/100000 : ℚ) sm0.vars.length (sm0.rows.map (·.coeffs))).length ∧
+    (selectPerRow sm0.rows.length (independentColumns (1/100000 : ℚ) sm0.vars.length (sm0.rows.map (·.coeffs)))).length = sm0.rows.length := by
+  have h1 : |(1:ℚ)| = 1 := abs_one
+  have e : independentColumns (1/100000 : ℚ) sm0.vars.length (sm0.rows.map (·.coeffs)) = [⟨0, 0, 1⟩, ⟨0, 1, 1⟩] := sm0_independent
+  refine ⟨?_, ?_, ?_⟩
+  · intro r hr x hx
+    simp [sm0] at hr; subst hr
+    simp at hx; subst hx
+    right; rw [h1]; norm_num
+  · rw [e]; simp [sm0]
+  · rw [e]; simp [selectPerRow, sm0, List.range, List.range.loop]
 
 end examples
 
